@@ -533,9 +533,13 @@ class _DirEntry:
         self.path = os.path.join(base, name)
         self._is_dir = node.is_dir
         self._ino = node.ino
+        self._stat = None
 
     def stat(self, *, follow_symlinks=True):
-        return os.stat(self.path)          # through the dispatcher: a seam step
+        # like os.DirEntry: the first result is cached for the life of the entry object
+        if self._stat is None:
+            self._stat = os.stat(self.path)          # through the dispatcher: a seam step
+        return self._stat
 
     def is_dir(self, *, follow_symlinks=True):
         return self._is_dir
